@@ -15,15 +15,18 @@ LEVEL = 'model_checking'
 RULE = ('state = one distinct input (left line list, right line list, input form); transition = one diffLines call executed '
         'by the real interpreter on the shipped diff.bare (included through the CLI fetcher); trace = one result checked against '
         'the reconstruction invariant. Families: every ordered pair of line lists up to the length bound over {a,b,c} in four '
-        'forms (two arrays, two LF-joined strings, two CRLF-joined strings, array against CRLF-joined string); the pairs of '
+        'forms (two arrays, two LF-joined strings, two CRLF-joined strings, array against CRLF-joined string); every ordered '
+        'pair of short line lists over {a, b, empty line} in those forms and as strings with alternating CRLF/LF terminators (blank '
+        'lines: interior, leading, trailing, consecutive; empty strings as array elements); the pairs of '
         'length <= 2 again with the include executed for every call (fresh globals, and re-included into used globals so the '
         'sentinel return runs); every (list, single edit) pair - insert / delete / replace one line - over {a,b}; every *.bare '
         'file of the package directory parsed, validated and linted. A pair is non-trivial when its result has at least one '
         'Identical block and at least one Add or Remove block.')
 ASSUMPTIONS = [
     'the reconstruction invariant of the property text is the whole oracle; minimality of the diff is not demanded',
-    'for a string input the line list is the text split at LF / CRLF; for the empty text both [] and [""] are accepted',
-    '"identical inputs" = same form on both sides and equal line lists',
+    'for a string input the line list is the text split at LF / CRLF; every interior or leading empty piece is a blank line that must be reconstructed',
+    'for the empty text and for a text that ends with a line terminator both readings of the last (empty) line are accepted; an array element "" is an empty line',
+    '"identical inputs" = both inputs have the same type and are equal',
     'blocks may carry extra keys; only type and lines are inspected',
     'horizon maxStatements = 100000 per call (a call needs < 1000 statements within the bounds)',
 ]
@@ -51,14 +54,30 @@ def build_input(lines, form, side):
         return list(lines)
     if form == 'lf':
         return '\n'.join(lines)
+    if form == 'alt':
+        # line terminators alternate between CRLF and LF; the left text starts with CRLF, the right text with LF
+        out = []
+        for i, line in enumerate(lines):
+            if i:
+                out.append('\r\n' if (i + side) % 2 else '\n')
+            out.append(line)
+        return ''.join(out)
     return '\r\n'.join(lines)
 
 
-def accepted_lines(lines, value):
-    """The line lists the property allows for this input (reference reading of 'the left/right lines')."""
-    if isinstance(value, str) and not lines:
-        return [[], ['']]
-    return [list(lines)]
+def accepted_lines(value):
+    """The line lists the property allows for this input (reference reading of 'the left/right lines').
+
+    Array: its elements, an empty string being an empty line. Text: the pieces between LF / CRLF terminators - every interior
+    and leading empty piece is a blank line that must survive; whether a text that ends with a terminator (and the empty text)
+    has a last, empty line is left open by the property, so both readings are accepted."""
+    if not isinstance(value, str):
+        return [list(value)]
+    pieces = value.split('\n')
+    pieces = [p[:-1] if i < len(pieces) - 1 and p.endswith('\r') else p for i, p in enumerate(pieces)]
+    if pieces[-1] == '':
+        return [pieces, pieces[:-1]]
+    return [pieces]
 
 
 def _options(bs_bare, glob):
@@ -115,7 +134,7 @@ def run_diff(left, right, mode):
     return ('ok', res, opts.get('statementCount'))
 
 
-def judge(llines, rlines, left, right, identical, res):
+def judge(left, right, identical, res):
     """The reconstruction invariant. Returns None if it holds, else (expected, what differs)."""
     if not isinstance(res, list):
         return ('an array of difference blocks', 'the result is not an array')
@@ -135,10 +154,10 @@ def judge(llines, rlines, left, right, identical, res):
             rec_left.extend(lines)
         if btype != 'Remove':
             rec_right.extend(lines)
-    if rec_left not in accepted_lines(llines, left):
-        return ({'left_lines': list(llines)}, 'Identical+Remove blocks in order do not give the left lines')
-    if rec_right not in accepted_lines(rlines, right):
-        return ({'right_lines': list(rlines)}, 'Identical+Add blocks in order do not give the right lines')
+    if rec_left not in accepted_lines(left):
+        return ({'left_lines': accepted_lines(left)[0]}, 'Identical+Remove blocks in order do not give the left lines')
+    if rec_right not in accepted_lines(right):
+        return ({'right_lines': accepted_lines(right)[0]}, 'Identical+Add blocks in order do not give the right lines')
     if identical and any(b['type'] != 'Identical' for b in res):
         return ('no Add or Remove block', 'identical inputs yield an Add or Remove block')
     return None
@@ -162,8 +181,11 @@ def check_pair(case, acc):
     acc.traces += 1
     if (show(left), show(right)) != keep:
         acc.violation(case, {'left': keep[0], 'right': keep[1]}, {'left': show(left), 'right': show(right)}, 'diffLines changed an input')
-    identical = form != 'mixed' and llines == rlines
-    bad = judge(llines, rlines, left, right, identical, res)
+    identical = type(left) is type(right) and left == right
+    for value in (left, right):
+        if len(accepted_lines(value)) > 1:
+            acc.count('sides_with_open_last_line')     # empty text / text ending in a terminator: both readings accepted
+    bad = judge(left, right, identical, res)
     if bad is not None:
         acc.violation(case, bad[0], res, bad[1])
         return ('bad', bad[1])
@@ -204,6 +226,27 @@ def fam_percall(arg):
                     _account(acc, obs)
                     if mode == 'fresh' and form == 'lf' and j == (i + 4) % len(pool):
                         acc.sample({'left': build_input(pool[i], form, 0), 'right': build_input(right, form, 1), 'form': form, 'mode': mode, 'block_types': obs})
+    return acc.result()
+
+
+BLANK_FORMS = ['array', 'lf', 'crlf', 'mixed', 'alt']
+BLANK_ALPHABET = ['a', 'b', '']
+
+
+def fam_blank(arg):
+    maxlen, lefts = arg
+    acc = Acc('blank_lines')
+    pool = lists_upto(BLANK_ALPHABET, maxlen)
+    for i in lefts:
+        for j, right in enumerate(pool):
+            for form in BLANK_FORMS:
+                obs = check_pair({'left': pool[i], 'right': right, 'form': form, 'mode': 'shared'}, acc)
+                _account(acc, obs)
+                # as a text, [''] is the same input as []: a case, but not a new state
+                if (pool[i] == [''] and form in ('lf', 'crlf', 'alt')) or (right == [''] and form != 'array'):
+                    acc.states -= 1
+                if form == 'alt' and j == (i * 5 + 11) % len(pool) and '' in pool[i]:
+                    acc.sample({'left': build_input(pool[i], form, 0), 'right': build_input(right, form, 1), 'form': form, 'block_types': obs})
     return acc.result()
 
 
@@ -306,6 +349,8 @@ def fam_shipped(arg):
 def families(tier):
     maxlen = 4 if tier == 'quick' else 6
     elen = 8 if tier == 'quick' else 10
+    blen = 3 if tier == 'quick' else 4
+    nblank = n_lists(3, blen)
     npool = n_lists(3, maxlen)
     nsmall = n_lists(3, 2)
     nedit = n_lists(2, elen)
@@ -321,6 +366,10 @@ def families(tier):
         Family('pairs', fam_pairs, [(maxlen, r) for r in split(list(range(npool)), 64)],
                f'every ordered pair of line lists of length <= {maxlen} over {{a,b,c}} x 4 forms (arrays, LF strings, CRLF strings, array vs CRLF string)',
                expected=npool * npool * len(FORMS)),
+        Family('blank_lines', fam_blank, [(blen, r) for r in split(list(range(nblank)), 40)],
+               f"every ordered pair of line lists of length <= {blen} over {{a, b, ''}} (blank lines: interior, leading, trailing, consecutive) x 5 forms "
+               '(arrays, LF strings, CRLF strings, array vs CRLF string, strings with alternating CRLF/LF terminators)',
+               expected=nblank * nblank * len(BLANK_FORMS)),
         Family('single_edits', fam_edits, [(elen, r) for r in split(list(range(nedit)), 32)],
                f'every list of length <= {elen} over {{a,b}} x every single-line insert/delete/replace x 3 forms',
                expected=n_edits(elen) * len(EDIT_FORMS)),
